@@ -13,18 +13,18 @@ CONSTANTS
   PrefTexts = {}
   PrefClass = "RangeError"
   PrefRest = "t1"
-  Stamps = {5, 999}
+  Stamps = {999}
   MaxNow = 2
   Shapes = {"ok", "short"}
   LevelKinds = {"node", "module", "param"}
-  Kinds = {"updateEvent"}
+  Kinds = {"updateEvent", "updateItem"}
   Behs = {"ok", "oneshot", "raise"}
   InitDescs <- GenInit
   Descs <- GenInit
   GIdents <- GIdentsC
   GActions = {"update", "error_update"}
   GLevels <- GLevelsC
-  EmitOneIn = 3
+  EmitOneIn = 6
   MaxCbs = 3
   MaxWait = 1
   Depth = 4
